@@ -118,6 +118,17 @@ def cmdWr (b : Bytes) (ops : String) : Option String :=
     | .ok w => pure s!"ok 1 {showBytes w}"
     | .error _ => pure "refused 1 -"
 
+/-- a write into a writer that cannot take all the bytes fails; the object is a value (unchanged by construction:
+    what the real object does is the direct oracle's business), a following full write gives the full bytes -/
+def cmdWrFail (b : Bytes) (cap : Nat) : Option String :=
+  match readFull b with
+  | .error .alloc => some "err:alloc"
+  | .error _ => some "err"
+  | .ok ((_, a), _) =>
+    match write a with
+    | .ok w => some s!"{if w.length ≤ cap then "ok" else "failed"} 1 {showBytes w}"
+    | .error _ => some "failed 1 refused"
+
 def oneFrameFile (L c f1 f2 : Nat) : ArtFile :=
   let layers := (List.range L).map fun i => (⟨(i + 1) % 65536, 0, i % 256, i % 65536, (65536 - i % 65536) % 65536⟩ : Layer)
   let fr : Frame := ⟨⟨c % 128, f1 % 2 == 1⟩, ⟨5, f2 % 2 == 1⟩, 11, 12, 13, 14, layers⟩
@@ -216,6 +227,7 @@ def handlePrt (cmd : String) (args : List String) : Option String :=
   | "prt.rules", [b] => do let b ← hex? b; pure (cmdRules b)
   | "prt.rt", [b] => do let b ← hex? b; pure (cmdRt b)
   | "prt.wr", [b, ops] => do let b ← hex? b; cmdWr b ops
+  | "prt.wrfail", [b, cap] => do let b ← hex? b; let cap ← nat? cap; if cap > 2 ^ 24 then none else cmdWrFail b cap
   | "prt.lc", [l, c, f1, f2] => do
       let l ← nat? l; let c ← nat? c; let f1 ← nat? f1; let f2 ← nat? f2; pure (cmdLc l c f1 f2)
   | "prt.lcsweep", [m] => do let m ← nat? m; if m > 400 then none else pure (cmdLcSweep m)
